@@ -884,6 +884,10 @@ func (st *AclState) applyAccountRemove(ch *aclrecordproto.AclAccountRemove, reco
 }
 
 func (st *AclState) applyReadKeyChange(ch *aclrecordproto.AclReadKeyChange, record *AclRecord, validate bool) error {
+	if ch == nil {
+		// an account removal without its read key change (not validated on this path)
+		return ErrIncorrectReadKey
+	}
 	if validate {
 		err := st.contentValidator.ValidateReadKeyChange(ch, record.Identity)
 		if err != nil {
